@@ -255,3 +255,71 @@ Fixpoint at_instant (t : tree) (d : Z) : option view :=
   | TScale s => let '(k, l) := scale_at s d in Some (VScale k l)
   | TNode ch => Some (VNode (children_at (fun c => at_instant c d) ch))
   end.
+
+(** ** Editing a tree in place: node.child...update(...)
+
+    The code mutates the Parameter object reached through the attributes of the nodes
+    (children of a node by name; the brackets of a scale by position, their fields by
+    name); every later evaluation of the tree sees the edited history - the tree has no
+    other state.  [g] is the edit of the history (a call of update). *)
+Inductive bfield := FThreshold | FRate | FAmount | FAverageRate.
+
+Inductive pstep :=
+  | PChild (n : string)                 (* node.children[n] *)
+  | PBracket (i : nat) (f : bfield).    (* scale.brackets[i].children[f] *)
+
+Definition edit_field (g : hist Z -> res (hist Z)) (o : option (hist Z)) : res (option (hist Z)) :=
+  match o with
+  | Some h => match g h with Ok h' => Ok (Some h') | Err e => Err e end
+  | None => Err ENotFound
+  end.
+
+Definition edit_bracket (f : bfield) (g : hist Z -> res (hist Z)) (b : bracket) : res bracket :=
+  match f with
+  | FThreshold => match edit_field g (b_threshold b) with
+                  | Ok x => Ok (mk_bracket x (b_rate b) (b_amount b) (b_average_rate b)) | Err e => Err e end
+  | FRate => match edit_field g (b_rate b) with
+             | Ok x => Ok (mk_bracket (b_threshold b) x (b_amount b) (b_average_rate b)) | Err e => Err e end
+  | FAmount => match edit_field g (b_amount b) with
+               | Ok x => Ok (mk_bracket (b_threshold b) (b_rate b) x (b_average_rate b)) | Err e => Err e end
+  | FAverageRate => match edit_field g (b_average_rate b) with
+                    | Ok x => Ok (mk_bracket (b_threshold b) (b_rate b) (b_amount b) x) | Err e => Err e end
+  end.
+
+Fixpoint edit_nth {A} (i : nat) (g : A -> res A) (l : list A) : res (list A) :=
+  match l, i with
+  | [], _ => Err EIndex
+  | x :: r, O => match g x with Ok x' => Ok (x' :: r) | Err e => Err e end
+  | x :: r, S j => match edit_nth j g r with Ok r' => Ok (x :: r') | Err e => Err e end
+  end.
+
+(** the first child called [n] (names are distinct: they are the keys of a dict) *)
+Fixpoint edit_child {A} (n : string) (g : A -> res A) (l : list (string * A)) : res (list (string * A)) :=
+  match l with
+  | [] => Err ENotFound
+  | (m, c) :: r =>
+      if String.eqb m n
+      then match g c with Ok c' => Ok ((m, c') :: r) | Err e => Err e end
+      else match edit_child n g r with Ok r' => Ok ((m, c) :: r') | Err e => Err e end
+  end.
+
+Fixpoint edit_at (path : list pstep) (g : hist Z -> res (hist Z)) (t : tree) : res tree :=
+  match path with
+  | [] => match t with
+          | TParam h => match g h with Ok h' => Ok (TParam h') | Err e => Err e end
+          | _ => Err ENotFound
+          end
+  | PChild n :: rest =>
+      match t with
+      | TNode ch => match edit_child n (edit_at rest g) ch with
+                    | Ok ch' => Ok (TNode ch') | Err e => Err e end
+      | _ => Err ENotFound
+      end
+  | PBracket i f :: rest =>
+      match t, rest with
+      | TScale s, [] =>
+          match edit_nth i (edit_bracket f g) (s_brackets s) with
+          | Ok brs => Ok (TScale (mk_scale (s_single_amount s) brs)) | Err e => Err e end
+      | _, _ => Err ENotFound
+      end
+  end.
